@@ -247,11 +247,18 @@ func cls(s string) string {
 // library's own size thresholds (block sub-division above 64*4096 cells, buffer
 // shifts above 10^6 corners, per-worker batches) are then reached by size, with
 // default constants.  The essentials item yield is thinned to every 257th item.
+// MaxBigCells caps the cells per axis of the big-lattice cases (the race-detector
+// build of C13, ten times slower, sets it lower).
+var MaxBigCells = 112
+
 func bigLattice(work *choice.Source, shape *simsolid.Shape, v *variant, lo, hi int, force bool) bool {
 	if !force && !work.Chance(1, 16) {
 		return false
 	}
 	n := lo + work.Intn(hi-lo+1)
+	if n > MaxBigCells {
+		n = MaxBigCells // (the draw is made either way: tapes keep their meaning)
+	}
 	a, b := shape.Bounds()
 	ext := 0.0
 	for i := 0; i < shape.Dim; i++ {
